@@ -145,6 +145,17 @@ def canon(node, defs, keep=(), _depth=0, _seen=frozenset(), commutative_mult=Tru
     if _depth > 200:
         raise AnalysisError("provenance expression too deep")
     c = lambda n: canon(n, defs, keep, _depth + 1, _seen, commutative_mult, lv)
+
+    def res(n):
+        """The defining expression of a local that merely names a fragment of an idiom matched below."""
+        k = 0
+        while isinstance(n, ast.Name) and n.id not in keep and k < 10:
+            d = defs.lookup(n.id, getattr(n, "lineno", None))
+            if d is None or d[0] != "expr" or id(d) in _seen:
+                break
+            n, k = d[1], k + 1
+        return n
+
     if isinstance(node, ast.Name):
         if node.id in keep:
             return node.id
@@ -174,8 +185,8 @@ def canon(node, defs, keep=(), _depth=0, _seen=frozenset(), commutative_mult=Tru
         # index-of-true idioms on 1-d masks: flatnonzero(m) == argwhere(m).flatten() == where(m)[0] == nonzero(m)[0]
         if _np_call(node, "flatnonzero", 1):
             return "nz(%s)" % c(node.args[0])
-        if isinstance(f, ast.Attribute) and f.attr in ("flatten", "ravel") and not node.args and _np_call(f.value, "argwhere", 1):
-            return "nz(%s)" % c(f.value.args[0])
+        if isinstance(f, ast.Attribute) and f.attr in ("flatten", "ravel") and not node.args and _np_call(res(f.value), "argwhere", 1):
+            return "nz(%s)" % c(res(f.value).args[0])
         is_np_func = isinstance(f, ast.Attribute) and isinstance(f.value, ast.Name) and f.value.id in ("_np", "np", "numpy")
         if isinstance(f, ast.Attribute) and f.attr in STRIP_METHODS and "ravel" != f.attr and not is_np_func:
             return c(f.value)
@@ -188,8 +199,8 @@ def canon(node, defs, keep=(), _depth=0, _seen=frozenset(), commutative_mult=Tru
         args = [c(a) for a in node.args] + ["%s=%s" % (k.arg, c(k.value)) for k in node.keywords if k.arg != "dtype"]
         return "%s(%s)" % (c(f), ",".join(args))
     if isinstance(node, ast.Subscript):
-        if isinstance(node.slice, ast.Constant) and node.slice.value == 0 and (_np_call(node.value, "where", 1) or _np_call(node.value, "nonzero", 1)):
-            return "nz(%s)" % c(node.value.args[0])
+        if isinstance(node.slice, ast.Constant) and node.slice.value == 0 and (_np_call(res(node.value), "where", 1) or _np_call(res(node.value), "nonzero", 1)):
+            return "nz(%s)" % c(res(node.value).args[0])
         return "%s[%s]" % (c(node.value), c(node.slice))
     if isinstance(node, ast.Slice):
         return "%s:%s" % (c(node.lower) if node.lower else "", c(node.upper) if node.upper else "")
@@ -250,6 +261,29 @@ def canon(node, defs, keep=(), _depth=0, _seen=frozenset(), commutative_mult=Tru
     if isinstance(node, ast.JoinedStr):
         return "fstr"
     return unparse(node)
+
+
+def inline(node, defs, _depth=0, keep=()):
+    """A copy of the expression `node` in which every local that has one reaching plain definition (`name = expr`) is
+    replaced by that expression, recursively: `t = a.weak_form(); return t * b` reads `a.weak_form() * b`.  Names the
+    provenance analysis keeps opaque (augmented, redefined in another branch, parameters, loop variables) stay."""
+    import copy
+
+    if _depth > 50:
+        raise AnalysisError("inline: definitions nested too deeply")
+
+    class _In(ast.NodeTransformer):
+        def visit_Name(self, n):
+            if isinstance(n.ctx, ast.Load) and n.id not in keep:
+                d = defs.lookup(n.id, getattr(n, "lineno", None))
+                if d is not None and d[0] == "expr":
+                    return inline(d[1], defs, _depth + 1, keep)
+            return n
+
+        def visit_Lambda(self, n):
+            return n
+
+    return _In().visit(copy.deepcopy(node))
 
 
 def match(pattern, text):
